@@ -67,15 +67,15 @@ var c01Extras = map[string]string{
 	"x_nest_unl_b": "M[{% include 'x_unlisted' %}{% include 'x_unlisted' with {'q': 1} %}]",
 	// string literals with escape sequences, different ones per template (what one parse leaves
 	// behind must not reach the literals of a template parsed earlier)
-	"x_esc_a":    "{{ 'line\\nA\\t1' ~ \"q\\\"A\" }}|{{ 'it\\'s A' }}",
-	"x_esc_b":    "{{ 'other\\\\B\\n2, a longer literal than the first one' }}|{{ \"dq\\\"B\\\"\" }}|{{ 'b\\'s' }}",
-	"x_sbx_unl":  "U[{% include 'x_unlisted' sandboxed %}]",
+	"x_esc_a":   "{{ 'line\\nA\\t1' ~ \"q\\\"A\" }}|{{ 'it\\'s A' }}",
+	"x_esc_b":   "{{ 'other\\\\B\\n2, a longer literal than the first one' }}|{{ \"dq\\\"B\\\"\" }}|{{ 'b\\'s' }}",
+	"x_sbx_unl": "U[{% include 'x_unlisted' sandboxed %}]",
 	// filter arguments taken from the context next to literal ones (rendered with several contexts)
 	"x_argchain": "{{ 'abcdefgh'|slice(c01n, 2) }}|{% for ch in 'abcdefgh'|split('')|slice(c01n, 3) %}{{ ch }}{% endfor %}|{{ nope|default(c01n)|number_format(c01n, '.', ',') }}|{{ nope|default('-')|replace('-', c01n ~ '+')|upper }}",
 	// calls of macros that other templates define (m0 .. m3 are the names the generated libraries
 	// use): a function nobody defined here
-	"x_call_m0": "[{{ m0(1) }}]",
-	"x_call_m1": "[{{ m1(1, 2) }}{{ c12wrap(1) }}]",
+	"x_call_m0":  "[{{ m0(1) }}]",
+	"x_call_m1":  "[{{ m1(1, 2) }}{{ c12wrap(1) }}]",
 	"x_unlisted": "{{ 'a-b'|replace('-', '+') }}{{ {'k': 1}|keys|join }}{{ [3,1]|merge([2])|join(',') }}",
 	// the same struct type reached as a value and through a pointer, in separate templates: the
 	// order in which a process meets the two forms must not matter
